@@ -1,6 +1,6 @@
 (* C05 — property theorems.  Only statements, [exact lemma] and Print Assumptions. *)
 From Coq Require Import ZArith List.
-From FV Require Import Lib.RustInt C05.Model C05.Proofs.
+From FV Require Import Lib.RustInt C05.Model C05.Proofs C05.Sort.
 Import ListNotations.
 Open Scope Z_scope.
 
@@ -45,6 +45,50 @@ Proof. exact serialize_sound_graph. Qed.
 
 (* serialize_len is the second conjunct of c05_serialize_sound. *)
 
+(* The decidable form of the hypotheses.  check_case evaluates [layout_okb] (and positions_matchb, root
+   first) on the packed graph of EVERY correspondence case on which the model reports success, so for
+   each such case this theorem applies to exactly the bytes that were compared with the implementation. *)
+Theorem c05_layout_okb_sound : forall objs ord, layout_okb objs ord = true -> layout_ok objs ord.
+Proof. exact layout_okb_sound. Qed.
+Theorem c05_checked_case_resolves : forall objs ord, layout_okb objs ord = true ->
+  exists out, serialize_ord objs ord = Some out /\ blen out = total_size objs ord /\
+    Resolves objs out 0 (hd 0 ord) /\
+    (forall id, In id ord -> Resolves objs out (posof objs ord id) id).
+Proof. exact layout_okb_resolves. Qed.
+
+(* sort_kahn (partial correctness, fresh graph, nobody links the root): IF it returns — i.e. does not hit
+   `panic!("cycle or something?")`, an index panic or a u32 overflow — then its order is duplicate-free,
+   starts with the root, contains every object reachable from the root, has every parent before each
+   child, and the recorded positions are the prefix sums.  No acyclicity assumption: on a cyclic graph the
+   final removed_edges check makes the model panic.  (The same holds for sort_shortest_distance: Sort.v
+   sort_sd_sorted.)  NOT proved: totality (acyclic + reachable => returns Some), see notes. *)
+Theorem c05_kahn_order_topological_partial : forall objs root g g',
+  from_objects objs root = Some g -> no_link_to objs root -> (1 < length objs)%nat ->
+  sort_kahn g = Some g' ->
+  NoDup (g_order g') /\ (exists r, g_order g' = root :: r) /\
+  (forall x, reach objs root x -> In x (g_order g')) /\
+  (forall id o l, In id (g_order g') -> mfind id objs = Some o -> In l (o_links o) ->
+     precedes (g_order g') id (l_obj l)) /\
+  positions_match g'.
+Proof. exact kahn_order_topological_partial. Qed.
+
+(* END-TO-END for the modelled packer (basic path: Kahn, shortest distance; the model never reports
+   Packed otherwise).  [graph_hyps]: the root object exists, nobody links it, every object has well-formed
+   link fields and zero adjustments (check_case evaluates graph_hypsb on every successful case).
+   Whenever pack_objects reports success, serialize succeeds and the root Resolves at position 0: no
+   further hypothesis on orders, positions or acyclicity. *)
+Theorem c05_pack_success_resolves : forall objs root g g',
+  from_objects objs root = Some g -> graph_hyps objs root -> pack_objects g = Some (g', Packed) ->
+  exists out, serialize g' = Some out /\ blen out = total_size objs (g_order g') /\
+    Resolves objs out 0 root /\
+    (forall id, In id (g_order g') -> Resolves objs out (posof objs (g_order g') id) id).
+Proof. exact pack_success_resolves. Qed.
+Theorem c05_dump_bytes_resolve : forall objs root out,
+  graph_hyps objs root -> dump_graph objs root = RBytes out -> Resolves objs out 0 root.
+Proof. exact dump_graph_resolves. Qed.
+Theorem c05_graph_hypsb_sound : forall objs root, graph_hypsb objs root = true -> graph_hyps objs root.
+Proof. exact graph_hypsb_sound. Qed.
+
 (* pack_objects reports success only after the gate returned false on the graph it returns *)
 Theorem c05_pack_success_passed_gate : forall g g',
   pack_objects g = Some (g', Packed) -> has_overflows g' = Some false.
@@ -63,6 +107,12 @@ Proof. exact pack_false_no_bytes. Qed.
 
 Print Assumptions c05_serialize_sound.
 Print Assumptions c05_serialize_sound_gate.
+Print Assumptions c05_layout_okb_sound.
+Print Assumptions c05_checked_case_resolves.
+Print Assumptions c05_kahn_order_topological_partial.
+Print Assumptions c05_pack_success_resolves.
+Print Assumptions c05_dump_bytes_resolve.
+Print Assumptions c05_graph_hypsb_sound.
 Print Assumptions c05_pack_success_passed_gate.
 Print Assumptions c05_bytes_only_after_gate.
 Print Assumptions c05_pack_false_no_bytes.
